@@ -568,6 +568,79 @@ Section Blocks.
 End Blocks.
 
 (* ===================================================================== *)
+(* Part 4c: the block gas pool                                            *)
+(*   miner/worker.go commitTransactions / commitTransaction,               *)
+(*   core/message_context.go buyGas / refundGas, core/state_processor.go   *)
+(*   ApplyMessageEntry, versus the importer's pool in Process.             *)
+(* ===================================================================== *)
+
+(* what applying a candidate does, as far as the pool is concerned *)
+Inductive gas_kind :=
+| GOk          (* applied: buyGas takes the limit, refundGas returns limit - used *)
+| GNonce       (* ErrNonceTooLow / ErrNonceTooHigh: refused before buyGas *)
+| GFundsGas    (* errInsufficientBalanceForGas: refused inside buyGas BEFORE GP.SubGas *)
+| GIntrinsic   (* intrinsic gas error / out of gas on it: after buyGas, no refundGas *)
+| GValue.      (* vm.ErrInsufficientBalance: consensus error returned AFTER refundGas *)
+(* g_used: what the pool loses for the transaction = limit - AvailableGas handed
+   back by refundGas (gas used net of the refund counter) *)
+Record gtx := mkGtx { g_limit : Z; g_kind : gas_kind; g_used : Z }.
+Definition gtx_wf (t : gtx) : Prop := 0 <= g_used t <= g_limit t.
+
+Definition tx_gas : Z := 21000.   (* params.TxGas *)
+
+(* builder: pool, included transactions, per attempted candidate "refused by the pool" *)
+Record gacc := mkGacc { ga_pool : Z; ga_incl : list gtx; ga_refused : list bool }.
+
+(* one commitTransaction.  A failing candidate is dropped with the state
+   reverted; the pool is NOT rolled back (it only ever gets smaller than the real
+   remainder, never larger) *)
+Definition worker_gas_step (a : gacc) (t : gtx) : gacc :=
+  match g_kind t with
+  | GNonce | GFundsGas => mkGacc (ga_pool a) (ga_incl a) (ga_refused a ++ [false])
+  | k =>
+    if ga_pool a <? g_limit t
+    then mkGacc (ga_pool a) (ga_incl a) (ga_refused a ++ [true])       (* GP.SubGas: ErrGasLimitReached *)
+    else match k with
+         | GOk => mkGacc (ga_pool a - g_limit t + (g_limit t - g_used t)) (ga_incl a ++ [t]) (ga_refused a ++ [false])
+         | GIntrinsic => mkGacc (ga_pool a - g_limit t) (ga_incl a) (ga_refused a ++ [false])
+         | _ => mkGacc (ga_pool a - g_limit t + (g_limit t - g_used t)) (ga_incl a) (ga_refused a ++ [false])
+         end
+  end.
+
+(* commitTransactions: stop as soon as the pool cannot hold a plain transfer *)
+Fixpoint worker_gas_run (step : gacc -> gtx -> gacc) (a : gacc) (cands : list gtx) : gacc :=
+  match cands with
+  | [] => a
+  | t :: r => if ga_pool a <? tx_gas then a else worker_gas_run step (step a t) r
+  end.
+
+(* the variant a seeded change produced: on any failure other than the pool /
+   nonce refusals the worker "gives back" the gas limit.  Counter-example only. *)
+Definition worker_gas_step_refunding (a : gacc) (t : gtx) : gacc :=
+  match g_kind t with
+  | GNonce => mkGacc (ga_pool a) (ga_incl a) (ga_refused a ++ [false])
+  | GFundsGas => mkGacc (ga_pool a + g_limit t) (ga_incl a) (ga_refused a ++ [false])
+  | k =>
+    if ga_pool a <? g_limit t
+    then mkGacc (ga_pool a) (ga_incl a) (ga_refused a ++ [true])
+    else match k with
+         | GOk => mkGacc (ga_pool a - g_used t) (ga_incl a ++ [t]) (ga_refused a ++ [false])
+         | GIntrinsic => mkGacc (ga_pool a - g_limit t + g_limit t) (ga_incl a) (ga_refused a ++ [false])
+         | _ => mkGacc (ga_pool a - g_used t + g_limit t) (ga_incl a) (ga_refused a ++ [false])
+         end
+  end.
+
+(* importer (Process): the pool starts at the block gas limit; every included
+   transaction must be able to buy its limit; None = "gas limit reached" *)
+Definition importer_gas_step (p : option Z) (t : gtx) : option Z :=
+  match p with
+  | None => None
+  | Some pool => if pool <? g_limit t then None else Some (pool - g_used t)
+  end.
+Definition importer_gas (gas_limit : Z) (incl : list gtx) : option Z :=
+  fold_left importer_gas_step incl (Some gas_limit).
+
+(* ===================================================================== *)
 (* Part 4b: forks - the side-chain import path                            *)
 (*   core/blockchain.go insertSidechain / verifyAllSideChainBlocks, the    *)
 (*   re-import after it, and the ordinary import of a whole branch.        *)
@@ -731,7 +804,12 @@ Inductive case :=
   (* per-transaction results of one built block: (gas, price, failed) ; header gas
      used, gas rewards ; observed cumulative gas per receipt (module receipt last) ;
      accepted by the importer *)
-| CBlock (txs : list (Z * Z * bool)) (h_used h_rew : Z) (obs_cum : list Z) (obs_status : list bool) (accepted : bool).
+| CBlock (txs : list (Z * Z * bool)) (h_used h_rew : Z) (obs_cum : list Z) (obs_status : list bool) (accepted : bool)
+  (* the worker's gas pool over one block under construction: block gas limit, the
+     candidates in the order the worker tried them (gas limit, observed outcome:
+     0 applied, 1 nonce, 2 no money for the gas, 3 refused by the pool, 4 intrinsic
+     gas, 5 value transfer impossible ; gas used) ; observed pool when the loop ended *)
+| CGas (gas_limit : Z) (steps : list (Z * N * Z)) (obs_final_pool : Z).
 
 Definition pr_eqb (a b : per_role) : bool :=
   (pr_ch a =? pr_ch b) && (pr_se a =? pr_se b) && (pr_ho a =? pr_ho b).
@@ -795,6 +873,17 @@ Definition block_case_ok (txs : list (Z * Z * bool)) (h_used h_rew : Z) (obs_cum
   && blist_eqb (map (fun r => negb (r_failed r)) recs) obs_status
   && Bool.eqb accepted ((t_rew _ _ _ a =? h_rew) && (t_used _ _ _ a =? h_used)).
 
+(* gas cases: the model is run on the observed outcomes; a candidate observed as
+   refused by the pool (3) stands for any kind that reaches GP.SubGas *)
+Definition gas_kind_of (k : N) : gas_kind :=
+  match k with 0%N => GOk | 1%N => GNonce | 2%N => GFundsGas | 4%N => GIntrinsic | 5%N => GValue | _ => GOk end.
+Definition gas_case_ok (gas_limit : Z) (steps : list (Z * N * Z)) (obs_final_pool : Z) : bool :=
+  let cands := map (fun s => mkGtx (fst (fst s)) (gas_kind_of (snd (fst s))) (snd s)) steps in
+  let a := fold_left worker_gas_step cands (mkGacc gas_limit [] []) in
+  (ga_pool a =? obs_final_pool)
+  && blist_eqb (ga_refused a) (map (fun s => (snd (fst s) =? 3)%N) steps)
+  && match importer_gas gas_limit (ga_incl a) with Some p => ga_pool a <=? p | None => false end.
+
 Definition case_ok (c : case) : bool :=
   match c with
   | CRewards v5 thr coeff ratios counts pb gas res pools prop os op opools ores =>
@@ -821,6 +910,7 @@ Definition case_ok (c : case) : bool :=
     end
   | CEvid parent maxe evs => ev_case_ok parent maxe evs
   | CBlock txs hu hr ocum ostat acc => block_case_ok txs hu hr ocum ostat acc
+  | CGas gl steps ofinal => gas_case_ok gl steps ofinal
   end.
 
 Fixpoint mismatches_from (i : N) (l : list case) : list N :=
